@@ -1177,3 +1177,148 @@ pub fn alloc_failures(site: usize, st: &mut FStats) -> R {
     }
     Ok(())
 }
+
+// ---------------------------------------------------------------------------------------------
+// E. a panicking payload destructor at the last release: the value is destroyed once and the
+//    block must still be returned (the handle's release must not lose the deallocation on unwind)
+
+pub const DROP_SITES: usize = 5;
+const DROP_NAMES: [&str; DROP_SITES] = ["Arc<T>", "OffsetArc<T>", "ThinArc (element k of n)", "Arc<[T]> (element k of n)", "UniqueArc::into_inner -> drop value"];
+
+pub fn drop_panics(site: usize, k: i64, st: &mut FStats) -> R {
+    use crate::tk::TD;
+    let what = format!("{}: destructor #{} panics at the last release", DROP_NAMES[site], k);
+    let id0 = begin();
+    enum Hd {
+        A(Arc<TD>),
+        O(OffsetArc<TD>),
+        T(ThinArc<u32, TD>),
+        S(Arc<[TD]>),
+        V(TD),
+    }
+    let (h, block) = shadow::tracked(|| match site {
+        0 => {
+            let a = Arc::new(TD::make(1));
+            let b = a.heap_ptr() as usize;
+            (Hd::A(a), b)
+        }
+        1 => {
+            let a = Arc::new(TD::make(1));
+            let b = a.heap_ptr() as usize;
+            (Hd::O(Arc::into_raw_offset(a)), b)
+        }
+        2 => {
+            let v: Vec<TD> = (0..3).map(|i| TD::make(i)).collect();
+            let t = ThinArc::from_header_and_iter(9u32, v.into_iter());
+            let b = t.heap_ptr() as usize;
+            (Hd::T(t), b)
+        }
+        3 => {
+            let a: Arc<[TD]> = (0..3).map(|i| TD::make(i)).collect::<Vec<_>>().into();
+            let b = a.heap_ptr() as usize;
+            (Hd::S(a), b)
+        }
+        _ => {
+            let u = UniqueArc::new(TD::make(1));
+            let b = u.clone_block_addr();
+            (Hd::V(UniqueArc::into_inner(u)), b)
+        }
+    });
+    tk::drop_panic_at(k);
+    let r = shadow::tracked(|| {
+        catch(|| match h {
+            Hd::A(a) => drop(a),
+            Hd::O(o) => drop(o),
+            Hd::T(t) => drop(t),
+            Hd::S(s) => drop(s),
+            Hd::V(v) => drop(v),
+        })
+    });
+    tk::drop_panic_at(0);
+    let n = if site == 2 || site == 3 { 3 } else { 1 };
+    ensure!(r.is_err() == (k <= n), "C07", "faults", "{}: panicked={} unexpectedly", what, r.is_err());
+    if shadow::active() && block != 0 {
+        ensure!(
+            shadow::live_layout(block).is_none(),
+            "C01,C07",
+            "faults",
+            "{}: the block was not returned to the allocator although its last owner is gone",
+            what
+        );
+    }
+    // every value is destroyed exactly once even though one destructor unwound
+    end(&what, id0, &[], 0).map_err(|mut v| {
+        v.props = "C01,C07";
+        v
+    })?;
+    st.counts.bump("faults.drop.runs");
+    st.cases.insert(hash64(&format!("drop|{}|{}", site, k)));
+    Ok(())
+}
+
+trait BlockAddr {
+    fn clone_block_addr(&self) -> usize;
+}
+impl<T> BlockAddr for UniqueArc<T> {
+    fn clone_block_addr(&self) -> usize {
+        // the value lives right after the count (payload alignment <= 8 here)
+        (&**self as *const T as usize) - std::mem::size_of::<usize>()
+    }
+}
+
+// ---------------------------------------------------------------------------------------------
+// F. payloads without drop glue: Clone must still be what produces copies (no bit-copy shortcuts)
+
+pub fn nodrop_cases(st: &mut FStats) -> R {
+    use crate::tk::ND;
+    shadow::reset();
+    // unwrap_or_clone: sole owner moves (0 clones, same serial), shared clones exactly once (new serial)
+    let a = shadow::tracked(|| Arc::new(ND::make(5)));
+    let s0 = a.serial;
+    let c0 = tk::clones();
+    let v = shadow::tracked(|| Arc::unwrap_or_clone(a));
+    ensure!(tk::clones() == c0 && v.serial == s0, "C09", "unwrap", "unwrap_or_clone of a solely owned no-drop-glue value made {} clones (serial {} -> {})", tk::clones() - c0, s0, v.serial);
+    let a = shadow::tracked(|| Arc::new(ND::make(6)));
+    let b = shadow::tracked(|| a.clone());
+    let s0 = a.serial;
+    let c0 = tk::clones();
+    let v = shadow::tracked(|| Arc::unwrap_or_clone(a));
+    ensure!(
+        tk::clones() == c0 + 1 && v.serial != s0 && v.tag == 6,
+        "C09",
+        "unwrap",
+        "unwrap_or_clone of a shared no-drop-glue value made {} Clone::clone calls and returned serial {} (original {}): the copy was not produced by Clone",
+        tk::clones() - c0,
+        v.serial,
+        s0
+    );
+    ensure!(Arc::count(&b) == 1 && b.serial == s0, "C09,C04", "unwrap", "unwrap_or_clone did not release exactly one owner");
+    // try_unwrap declines while shared, then succeeds
+    let b2 = shadow::tracked(|| b.clone());
+    let r = shadow::tracked(|| Arc::try_unwrap(b2));
+    ensure!(r.is_err(), "C09,C03", "unwrap", "try_unwrap moved a shared no-drop-glue value out");
+    drop(r);
+    // make_mut: shared copies with exactly one Clone; sole owner does not clone
+    let mut m = shadow::tracked(|| b.clone());
+    let c0 = tk::clones();
+    shadow::tracked(|| Arc::make_mut(&mut m).tag = 9);
+    ensure!(tk::clones() == c0 + 1 && m.serial != s0 && b.tag == 6 && m.tag == 9, "C08", "cow", "make_mut on a shared no-drop-glue value made {} clones", tk::clones() - c0);
+    let c0 = tk::clones();
+    shadow::tracked(|| Arc::make_mut(&mut m).tag = 10);
+    ensure!(tk::clones() == c0, "C08", "cow", "make_mut on a solely owned no-drop-glue value cloned it");
+    let mut o = shadow::tracked(|| Arc::into_raw_offset(b.clone()));
+    let c0 = tk::clones();
+    shadow::tracked(|| o.make_mut().tag = 11);
+    ensure!(tk::clones() == c0 + 1 && b.tag == 6 && o.tag == 11, "C08", "cow", "OffsetArc::make_mut on a shared no-drop-glue value made {} clones", tk::clones() - c0);
+    shadow::tracked(|| {
+        drop(o);
+        drop(m);
+        drop(b);
+    });
+    if shadow::active() {
+        ensure!(shadow::live_count() == 0, "C01", "live", "blocks left behind by the no-drop-glue cases");
+    }
+    st.counts.bump("faults.nodrop.runs");
+    st.cases.insert(hash64("nodrop"));
+    Ok(())
+}
